@@ -34,4 +34,11 @@ var props = map[string]propCfg{
 		{Name: "race", Race: true, Shards: 16, TimeoutS: 900, TZ: []string{"UTC"}, Env: []string{"VERIF_LIGHT=1"}},
 		{Name: "asan", Tier: "thorough", Asan: true, Shards: 16, TimeoutS: 900, TZ: []string{"UTC"}, Env: []string{"VERIF_LIGHT=1"}},
 	}, RaceFiles: ioRace},
+	"C02": {Pkg: "checks/c02", Level: "exploration", Passes: []pass{
+		{Name: "plain", Shards: 16, TimeoutS: 600, CaseTimeoutS: 60, HangSig: "encode-or-decode-does-not-terminate", TZ: []string{"UTC", "Asia/Shanghai"}},
+		{Name: "race", Race: true, Shards: 16, TimeoutS: 900, CaseTimeoutS: 120, HangSig: "encode-or-decode-does-not-terminate", TZ: []string{"UTC"}},
+	}, RaceFiles: ioRace},
+	"C03": {Pkg: "checks/c03", Level: "exploration", Passes: []pass{
+		{Name: "plain", Shards: 16, TimeoutS: 600, TZ: []string{"UTC", "Asia/Shanghai"}},
+	}, RaceFiles: ioRace},
 }
